@@ -276,6 +276,24 @@ func (c *v17Inner) SetDeadline(time.Time) error      { return nil }
 func (c *v17Inner) SetReadDeadline(time.Time) error  { return nil }
 func (c *v17Inner) SetWriteDeadline(time.Time) error { return nil }
 
+// the same connection, also offering the net.PacketConn methods (like layer4's UDP connections)
+type v17PacketInner struct{ *v17Inner }
+
+func (c v17PacketInner) ReadFrom(p []byte) (int, net.Addr, error) {
+	n, err := c.v17Inner.Read(p)
+	return n, c.RemoteAddr(), err
+}
+func (c v17PacketInner) WriteTo(p []byte, _ net.Addr) (int, error) { return len(p), nil }
+
+var _ net.PacketConn = v17PacketInner{}
+
+func v17AsConn(in *v17Inner, packet bool) net.Conn {
+	if packet {
+		return v17PacketInner{in}
+	}
+	return in
+}
+
 // ---------------------------------------------------------------- (b) Provision and read sizes
 
 func v17ProvisionCases(out *vOut, r *vRng, n int) {
@@ -400,7 +418,9 @@ func v17ReadCases(out *vOut, r *vRng, n int) {
 		var got []byte
 		var ns, rerrs, innerIdx []int
 		consT, consL := int64(-1), int64(-1)
-		cx := layer4.WrapConnection(inner, prefix, zap.NewNop())
+		packet := r.Intn(3) == 0 // the wrapped connection also is a net.PacketConn
+		input["inner_is_packet_conn"] = packet
+		cx := layer4.WrapConnection(v17AsConn(inner, packet), prefix, zap.NewNop())
 		if len(prefix) > 0 && r.Bool() {
 			// a real matcher round over the prefetched bytes first (freeze, read, rewind)
 			peek := 1 + r.Intn(len(prefix)+4)
@@ -538,6 +558,9 @@ func v17ReadCases(out *vOut, r *vRng, n int) {
 		if pre > 0 {
 			cls += "+prefetched"
 		}
+		if packet {
+			cls += "+packetconn"
+		}
 		out.Case(fmt.Sprintf("CRead %s %s %s %s %s %s [%s] [%s] %s %s", c.coq(), cZ(pre), cZ(avail), cZ(int64(chunk2(chunk))), cZList(lens), cZList(ierrs), strings.Join(obs, ";"), strings.Join(ret, ";"), cZ(consT), cZ(consL)),
 			cls, clipped || ledger || withData || pre > 0, map[string]any{"cfg": c.coq(), "prefetched_left": pre, "lens": lens, "inner_errs": ierrs, "obs": obs, "ret": ret, "final_error_mode": inner.errWith, "consumed_total": consT, "consumed_local": consL})
 	}
@@ -642,7 +665,7 @@ func v17RunTimed(c v17Timed, seed byte) (fails []v17Fail, pulled int64, elapsed 
 		go func(k int) {
 			defer wg.Done()
 			inner := &v17Inner{size: 1 << 40, seed: seed + byte(k), shared: shared}
-			cx := layer4.WrapConnection(inner, nil, zap.NewNop())
+			cx := layer4.WrapConnection(v17AsConn(inner, (k+int(seed))%3 == 0), nil, zap.NewNop())
 			var t0 time.Time
 			var got int64
 			entered := time.Now()
@@ -850,6 +873,79 @@ func v17LatencyAfterCancel(out *vOut) {
 	out.Case("", "timed:latency-after-cancel", conns > 0, map[string]any{"connections": conns, "failures": len(fails)})
 }
 
+// The latency wait does not depend on which limits are configured: latency alone, with a total
+// limit only, with bursts only, with every limit. One connection each, one small Read.
+func v17LatencyConfigs(out *vOut) {
+	lat := 80 * time.Millisecond
+	cfgs := []struct {
+		name string
+		h    Handler
+	}{
+		{"latency only", Handler{}},
+		{"latency + total rate", Handler{TotalReadBytesPerSecond: 50000}},
+		{"latency + total burst only", Handler{TotalReadBurstSize: 4096}},
+		{"latency + burst only", Handler{ReadBurstSize: 4096}},
+		{"latency + rate", Handler{ReadBytesPerSecond: 50000}},
+		{"latency + every limit", Handler{ReadBytesPerSecond: 50000, ReadBurstSize: 2048, TotalReadBytesPerSecond: 80000, TotalReadBurstSize: 4096}},
+	}
+	type res struct {
+		early time.Duration
+		err   string
+		read  bool
+	}
+	once := func(i int) res {
+		h := cfgs[i].h
+		h.Latency = caddy.Duration(lat)
+		err, cancel := v17Provision(&h)
+		defer cancel()
+		if err != nil {
+			return res{err: "provision: " + err.Error()}
+		}
+		inner := &v17Inner{size: 1000}
+		cx := layer4.WrapConnection(inner, nil, zap.NewNop())
+		entered := time.Now()
+		herr := h.Handle(cx, layer4.HandlerFunc(func(cx *layer4.Connection) error {
+			_, err := cx.Read(make([]byte, 16))
+			return err
+		}))
+		if herr != nil {
+			return res{err: herr.Error()}
+		}
+		inner.mu.Lock()
+		defer inner.mu.Unlock()
+		if inner.first.IsZero() {
+			return res{}
+		}
+		return res{early: lat - inner.first.Sub(entered), read: true}
+	}
+	results := make([]res, len(cfgs))
+	var wg sync.WaitGroup
+	for i := range cfgs {
+		wg.Add(1)
+		go func(i int) {
+			defer wg.Done()
+			results[i] = once(i)
+			if results[i].early > 0 || results[i].err != "" {
+				if r2 := once(i); r2.early <= 0 && r2.err == "" {
+					results[i] = r2
+				}
+			}
+		}(i)
+	}
+	wg.Wait()
+	for i, c := range cfgs {
+		in := fmt.Sprintf("%s: latency=%s read_bytes_per_second=%g read_burst_size=%d total_read_bytes_per_second=%g total_read_burst_size=%d; one connection, one Read of 16 bytes",
+			c.name, lat, c.h.ReadBytesPerSecond, c.h.ReadBurstSize, c.h.TotalReadBytesPerSecond, c.h.TotalReadBurstSize)
+		switch {
+		case results[i].err != "":
+			out.Fail("C17:handle:error", results[i].err, in)
+		case results[i].early > 0:
+			out.Fail("C17:latency:read-before-latency", fmt.Sprintf("%s: first inner Read %s after Handle was entered, latency is %s", c.name, lat-results[i].early, lat), in)
+		}
+		out.Case("", "timed:latency-config", results[i].read, map[string]any{"cfg": in})
+	}
+}
+
 func TestVerifC17(t *testing.T) {
 	out := vOpen()
 	defer out.Close()
@@ -863,6 +959,7 @@ func TestVerifC17(t *testing.T) {
 	if vThorough() {
 		nt = 48
 	}
+	v17LatencyConfigs(out)
 	v17LatencyAfterCancel(out)
 	v17TimedCases(out, r, nt)
 }
